@@ -40,7 +40,8 @@ def objects(platform):
 
     def acl(group=False):
         def f():
-            a = cisco_acl.Acl("\n".join([head, "remark = H1", f"permit tcp {host} any eq 80", f"deny ip {g} G1 any log", "remark = H2", "permit icmp any any"]),
+            a = cisco_acl.Acl("\n".join([head, "remark = H1", f"permit tcp {host} any eq 80", f"deny ip {g} G1 any log", "remark = H2", "permit icmp any any",
+                                         f"permit tcp any range 20 21 {net} range 1024 65535", "permit udp any any gt 1023"]),
                               platform=platform, note=Note("acl"))
             for i, o in enumerate(a.items):
                 o.note = Note(i)
@@ -173,7 +174,7 @@ def strip(line):
     return " ".join(t[1:] if t and t[0].isdigit() else t)
 
 
-TRANSFORMS = ["platform", "platform-back", "port_nr", "protocol_nr", "resequence", "sort", "group", "ungroup", "type"]
+TRANSFORMS = ["platform", "platform-back", "port_nr", "protocol_nr", "resequence", "sort", "group", "ungroup", "type", "ungroup_ports", "grouped-platform", "delete_shadow"]
 
 
 def check_ids(arg):
@@ -206,6 +207,13 @@ def check_ids(arg):
             acl.ungroup()
         elif tr == "type":
             acl.type = "extended"
+        elif tr == "ungroup_ports":
+            acl.ungroup_ports()
+        elif tr == "grouped-platform":
+            acl.group("=")
+            acl.platform = other
+        elif tr == "delete_shadow":
+            acl.delete_shadow()
     except Exception as ex:
         return [dict(key=f"bounded/Acl.{tr}:error", what=f"{type(ex).__name__}: {ex}", inputs=dict(platform=platform, transform=tr))], 1
     after = ids(acl)
@@ -254,7 +262,7 @@ def main(chk):
         for f in fails:
             viol += 1
             chk.finding(f["key"], f["what"], inputs=f["inputs"], cmd=f.get("cmd"), key=f["key"])
-    chk.add_bounded("in-place transformations keep uuid and note of items and of nested objects", len(cases), len(cases), "9 transformations x 2 platforms on a 5-item ACL with notes everywhere",
+    chk.add_bounded("in-place transformations keep uuid and note of items and of nested objects", len(cases), len(cases), "12 transformations x 2 platforms on a 7-item ACL (eq, range, gt ports, address group) with notes everywhere",
                     viol, time.time() - t0, [list(cases[0])], exhaustive=True)
     chk.assumptions += ["aliasing through **data() dictionaries and __dict__.update needs an ownership logic pyvc does not have: no obligation is discharged deductively"]
     return chk.finish("other", "Bounded contract check only (object-graph identity and aliasing): equal rebuilds, disjoint reachable mutable state, mutate-then-observe, "
